@@ -6,12 +6,45 @@ from core import call_impl, ROOT
 from gens import mutate, AA
 
 
+def scan_tables(ctx):
+    """Search step behind C14_vtables: the theorem is vm_compute on the literals regenerated from the CSV files; when it no
+    longer checks this scan names the concrete entry (read the way the implementation reads the table)."""
+    import pyrepseq
+    d = os.path.join(os.path.dirname(pyrepseq.__file__), 'data')
+    for chain in ('alpha', 'beta'):
+        path = os.path.join(d, 'vdists_%s.csv' % chain)
+        try:
+            t = pd.read_csv(path, index_col=0)
+        except Exception as e:
+            ctx.violation('property', 'bundled table vdists_%s.csv cannot be read: %r' % (chain, e), dict(table=chain), site='data.vdists_' + chain)
+            continue
+        rows, cols = list(t.index), list(t.columns)
+        ctx.case(nontrivial_key=('vtable', chain))
+        if rows != cols or len(set(rows)) != len(rows):
+            ctx.violation('property', 'vdists_%s.csv: row labels and column labels differ or repeat' % chain,
+                          dict(table=chain, rows=rows[:5], cols=cols[:5]), site='data.vdists_' + chain)
+            continue
+        m = t.to_numpy()
+        for i in range(len(rows)):
+            if m[i, i] != 0:
+                ctx.violation('property', 'vdists_%s.csv: distance of %s to itself is %s, not 0' % (chain, rows[i], m[i, i]),
+                              dict(table=chain, allele=rows[i], value=float(m[i, i])), site='data.vdists_' + chain)
+                break
+        bad = np.argwhere(m != m.T)
+        if len(bad):
+            i, j = map(int, bad[0])
+            ctx.violation('property', 'vdists_%s.csv is not symmetric: d(%s, %s) = %s but d(%s, %s) = %s' %
+                          (chain, rows[i], cols[j], m[i, j], rows[j], cols[i], m[j, i]),
+                          dict(table=chain, a=rows[i], b=cols[j], d_ab=float(m[i, j]), d_ba=float(m[j, i])), site='data.vdists_' + chain)
+
+
 def run(ctx):
     sys.path.insert(0, os.path.join(ROOT, 'standin'))
     import pwseqdist                       # the stand-in
     import pyrepseq.nn as nn
     nn.pwseqdist = pwseqdist               # pyrepseq.nn imports it in a try block at import time
     rng = ctx.rng
+    scan_tables(ctx)
     la, lb = ctx.oracle.run([('api_vtable_labels', [True]), ('api_vtable_labels', [False])])
     cases = []
     for t in range(40 if ctx.quick else 600):
